@@ -427,3 +427,19 @@ def _setter(name, field, other):
 
 _setter('setStdOffset', 'std', 'dst')
 _setter('setDstOffset', 'dst', 'std')
+
+
+# ---- operator!= is the negation of operator== (C16: "compare equal exactly when ...") ---------------------------------------
+def _neq(T):
+    def post(c):
+        calls = [e for e in c.log if e[0] == 'call' and e[1].startswith('ace_time::operator==(' + T)]
+        if not calls:
+            return [('decided-by-operator==', z3.BoolVal(False))]
+        _, _, args, rv = calls[-1]
+        same = z3.And(c.ex.ptr_to_bv(args[0]) == c.ex.ptr_to_bv(c.args[0]), c.ex.ptr_to_bv(args[1]) == c.ex.ptr_to_bv(c.args[1]))
+        return [('negation-of-operator==-on-the-same-operands', z3.And(same, (c.result == 1) == (rv == 0)))]
+    contract('ace_time::operator!=(%s const&, %s const&)' % (T, T), pure=True, props=['C16'], ensures=post)
+
+
+_neq('ace_time::TimeZone')
+_neq('ace_time::TimeZoneData')
